@@ -191,7 +191,8 @@ def _swv_over_diff(prog, vals):
     def depends(v, seen):
         return reaches(v, src, seen)
 
-    return any(s["op"] in ("sliding_window_view", "swv_reduce") and any(depends(a, set()) for a in s["args"]) for s in prog["stmts"])
+    # consumers that freeze per-block chunk metadata at construction
+    return any(s["op"] in ("sliding_window_view", "swv_reduce", "repeat", "broadcast_to") and any(depends(a, set()) for a in s["args"]) for s in prog["stmts"])
 
 
 @excl("KF-ufunc-where-0d-out")
